@@ -85,7 +85,7 @@ Sound == (phase = "done" /\ ~Exempt) => \A i \in DOMAIN Vals : Accepts(InferCode
 SpecEq == (phase = "done" /\ ~Exempt) => InferCode(cs) = InferSpec(cs)
 
 Emit == phase = "done" =>
-  PrintT(<<"CASE", ToJson([t |-> cs, spec |-> InferSpec(cs), code |-> InferCode(cs),
+  PrintT(<<"CASE", ToJson([t |-> cs, fam |-> Family, spec |-> InferSpec(cs), code |-> InferCode(cs),
                            vals |-> Vals, enc |-> [i \in DOMAIN Vals |-> Enc(cs, Vals[i])],
                            ok |-> [i \in DOMAIN Vals |-> Accepts(InferSpec(cs), Enc(cs, Vals[i]))]])>>)
 ====
